@@ -120,9 +120,12 @@ def one_frame_per_word(c):
 # ------------------------------------------------------------------------------------ caption lists
 
 def distinct(p, t):
-    i_, j_ = z3.Ints("i_ j_")
+    """pairwise distinct objects, stated as an injective numbering (every element knows its index): friendlier to
+    the solver than 'for all i < j: t[i] != t[j]'"""
+    j_ = z3.Int("j_")
     n = z3.Length(t)
-    p.assume(z3.ForAll([i_, j_], z3.Implies(z3.And(0 <= i_, i_ < j_, j_ < n), t[i_] != t[j_])))
+    POS = z3.Function("POSITION_IN_" + str(abs(hash(t.sexpr())) % 10 ** 8), INT, INT)
+    p.assume(z3.ForAll([j_], z3.Implies(z3.And(0 <= j_, j_ < n), POS(t[j_]) == j_)))
 
 
 def update_last_batch(c):
@@ -177,7 +180,7 @@ def last_captions(c):
     # M = number of trailing captions that never got an end (the maximal suffix with end == 0)
     M = z3.Int("M_trailing_without_end")
     p.assume(z3.And(0 <= M, M <= n))
-    p.assume(z3.ForAll([j_], z3.Implies(z3.And(0 <= j_, j_ < M), EN[caps.t[n - 1 - j_]] == 0)))
+    p.assume(z3.ForAll([j_], z3.Implies(z3.And(n - M <= j_, j_ < n), EN[caps.t[j_]] == 0)))
     p.assume(z3.Implies(M < n, EN[caps.t[n - 1 - M]] != 0))
     J = z3.Int("any_index")
     p.assume(z3.And(0 <= J, J < n))
@@ -201,6 +204,59 @@ def last_captions(c):
     c.ensure("trailing_captions_without_end_last_four_seconds",
              z3.Implies(J >= n - M, four_seconds(en[caps.t[J]], ST[caps.t[J]])))
     c.ensure("every_other_end_is_kept", z3.Implies(J < n - M, en[caps.t[J]] == EN[caps.t[J]]))
+
+
+def read_tail(c):
+    """Region of SCCReader.read from the duration check to `return captions`, for the captions of ANY language label
+    (`lang=`) and any number of them: a caption shown for less than 0.05 s is rejected with the timing error, an empty
+    result with the no-captions error; otherwise every caption lasts at least 0.05 s (or has no end yet), and the
+    trailing captions without end are completed (fix_last_captions_without_ending, by its own contract above) on
+    the list of that same language."""
+    from pycaption.base import CaptionSet
+    p = cur()
+    lang = c.pick("lang", ["en-US", "de-DE"])
+    caps = SymList(z3.Const("caps", SEQ), Caption)
+    n = z3.Length(caps.t)
+    ST, EN = heap_array(p, Caption, "start"), heap_array(p, Caption, "end")
+    fsub = z3.Function("fsub", z3.RealSort(), z3.RealSort(), z3.RealSort())
+    flash = lambda x: z3.And(0 < fsub(EN[x], ST[x]), fsub(EN[x], ST[x]) < 50000)
+    J = z3.Int("any_index")
+    p.assume(z3.And(0 <= J, J < n))
+    cs = c.new(CaptionSet, _captions={lang: caps}, _styles={}, layout_info=None)
+    reader = c.new(SCCReader)
+    fixed = []
+
+    def inv(S):
+        return [("no_flash_among_the_captions_checked_so_far", z3.Implies(J < S.i, z3.Not(flash(caps.t[J]))))]
+    # (the loop contract is attached to the list it walks, so it follows the loop into a helper method)
+    c.interp.loop_hooks[("*over*", caps.t.sexpr())] = loop_rule("durations.loop", inv)
+    c.interp.contracts.update({
+        "pycaption.scc:fix_last_captions_without_ending": lambda interp, fn, a, kw: fixed.append(a[0]),
+        "pycaption.base:Caption.format_start": lambda interp, fn, a, kw: "00:00:00.000",
+        "pycaption.base:Caption.get_text": lambda interp, fn, a, kw: "text"})
+    # the region begins right after the statement that raises the line-length error (C15's business) and runs to the return
+    def raises_line_length(st):
+        return isinstance(st, ast.If) and any(isinstance(x, ast.Raise) and "CaptionLineLengthError" in ast.dump(x) for x in ast.walk(st))
+    body = function_ast_of(SCCReader.read).body
+    k = next((idx for idx, st in enumerate(body) if raises_line_length(st)), None)
+    nxt = body[k + 1] if k is not None and k + 1 < len(body) else None
+    r = c.run_region(SCCReader.read, first=lambda st: st is nxt, last=lambda st: isinstance(st, ast.Return),
+                     locals_={"self": reader, "captions": cs, "lang": lang}, raises=(CaptionReadTimingError, CaptionReadNoCaptions))
+    i = p.ghost.get("loop_index", {}).get("durations.loop")
+    if isinstance(r, Raised) and isinstance(r.exc, CaptionReadTimingError):
+        c.ensure("timing_error_only_for_a_caption_shorter_than_0.05s", i is not None and z3.And(i < n, flash(caps.t[i])))
+    elif isinstance(r, Raised):
+        c.ensure("no_captions_error_only_for_an_empty_result", n == 0)
+    else:
+        c.ensure("returns_the_caption_set", r.get("__return__") is cs)
+        c.ensure("no_caption_shorter_than_0.05s_is_returned", z3.Not(flash(caps.t[J])))
+        c.ensure("result_is_not_empty", n > 0)
+        c.ensure("open_ends_completed_on_the_list_of_the_same_language", len(fixed) == 1 and fixed[0] is caps)
+
+
+def function_ast_of(fn):
+    from pyvc.interp import function_ast
+    return function_ast(fn)
 
 
 # ------------------------------------------------------------------------------------ bounded part
@@ -375,6 +431,7 @@ def run(ctx):
     P("scc._SccTimeTranslator.frames", frame_counting,
       functions=[_SccTimeTranslator.start_at, _SccTimeTranslator.increment_frames])
     P("scc.SCCReader._translate_word", one_frame_per_word, functions=[SCCReader._translate_word])
+    P("scc.SCCReader.read[durations and completion]", read_tail, functions=[SCCReader.read], setup_interp=setup, fsem="uf", crosscheck=False)
     P("scc.TimingCorrectingCaptionList._update_last_batch", update_last_batch,
       functions=[TimingCorrectingCaptionList._update_last_batch], setup_interp=setup, crosscheck=False)
     P("scc.fix_last_captions_without_ending", last_captions, functions=[fix_last_captions_without_ending],
